@@ -24,8 +24,8 @@ RULE = ("cases = curated shapes + random-grammar assignments x random formats x 
         "loop iteration on an input that stores an entry; distinct by (assignment, formats, sizes, inputs, capacity)")
 
 PLAN = {
-    "quick": dict(shards=12, fmt=8, inp=2, rnd=1500, draws=2, lattice=360),
-    "thorough": dict(shards=16, fmt=60, inp=3, rnd=24000, draws=4, lattice=16000),
+    "quick": dict(shards=12, fmt=8, inp=2, rnd=1500, draws=2, lattice=180, medium=180),
+    "thorough": dict(shards=16, fmt=60, inp=3, rnd=24000, draws=4, lattice=16000, medium=8000),
 }
 
 
@@ -100,17 +100,81 @@ def shard(rec, tier, index, n_shards):
         rec.count("lattice_cases")
         do_case(rec, case, one_request=(n % 2 == 0))
         n += 1
+    for case in engine.medium_cases(rng, plan["medium"] // n_shards):
+        rec.count("medium_size_cases")
+        do_case(rec, case, one_request=(n % 2 == 0))
+        n += 1
+    for case in engine.high_order_cases(rng, 6 if tier == "quick" else 400):
+        rec.count("high_order_cases")
+        do_case(rec, case, one_request=(n % 2 == 0))
+        n += 1
     # every output format of a few simple shapes (engine.output_exhaustive_cases)
     for case in engine.output_exhaustive_cases(rng, index, n_shards, draws=2 if tier == "quick" else 8):
         rec.count("every_output_format_cases")
         do_case(rec, case, one_request=(n % 2 == 0))
         n += 1
     # bounded-exhaustive small shapes (engine.small_shapes): a seeded third in quick, all in thorough
-    third = 1 if tier == "thorough" else 3
-    for case in engine.small_shape_cases(rng, index + n_shards * (rec.seed % third), n_shards * third, draws=4, out_modes=("s", "d")):
+    third = 1 if tier == "thorough" else 6
+    for case in engine.small_shape_cases(rng, index + n_shards * (rec.seed % third), n_shards * third, draws=3, out_modes=("s", "d")):
         rec.count("small_shape_cases")
         do_case(rec, case, one_request=(n % 2 == 0))
         n += 1
+
+
+def start_default_capacity_leg():
+    """Growth at the default initial capacity (2^20): verif/big_child.py in its own process, in parallel
+    with the shards (kernels through the LLVM JIT with more than 2^20 stored output entries)."""
+    import os
+    import subprocess
+    import sys
+
+    from ..common import ROOT, work_dir
+
+    wd = work_dir("c05big")
+    out = os.path.join(wd, "big.json")
+    env = dict(os.environ)
+    env.pop("TENSORA_VERIF_INITIAL_CAPACITY", None)
+    env["PYTHONHASHSEED"] = "0"
+    env["PYTHONFAULTHANDLER"] = "1"
+    p = subprocess.Popen([sys.executable, os.path.join(ROOT, "verif", "big_child.py"), out], env=env, cwd=wd,
+                         stdout=subprocess.PIPE, stderr=subprocess.STDOUT)
+    return p, out, wd
+
+
+def finish_default_capacity_leg(run, big):
+    import subprocess
+
+    from ..common import rm_tree
+
+    p, out, wd = big
+    try:
+        try:
+            log, _ = p.communicate(timeout=3600)
+        except subprocess.TimeoutExpired:
+            p.kill()
+            p.wait()
+            run.inconclusive_because("the default-capacity growth leg hit the wall-clock watchdog")
+            return
+        tail = log.decode(errors="replace")[-600:]
+        if p.returncode != 0:
+            if p.returncode < 0:
+                run.violation("default-capacity-growth:process-died", {"signal": -p.returncode, "output_tail": tail})
+            else:
+                run.inconclusive_because(f"the default-capacity growth leg exited {p.returncode}: {tail[-300:]}")
+            return
+        d = json.load(open(out))
+        for c in d["cases"]:
+            run.evaluated()
+            run.count("default_capacity_growth_kernels")
+            run.counters["max_stored_entries_in_one_output"] = max(run.counters.get("max_stored_entries_in_one_output", 0), c["stored_entries"])
+            run.nontrivial("default-capacity:" + c["case"])
+        for pr in d["problems"]:
+            run.evaluated()
+            run.violation("default-capacity-growth:" + ("malformed:" + pr["malformed"] if "malformed" in pr else "wrong-result"), pr)
+        if len(d["cases"]) + len(d["problems"]) < 4:
+            run.inconclusive_because("the default-capacity growth leg ran fewer kernels than planned")
+    finally:
+        rm_tree(wd)
 
 
 def main(tier):
@@ -120,10 +184,12 @@ def main(tier):
         run.inconclusive_because(f"positive control did not fire: {b}")
     run.counters["positive_controls_fired"] = 18 - len(bad)
     plan = PLAN[tier]
+    big = start_default_capacity_leg()
     run_shards(run, "c05", plan["shards"], timeout_s=3600 if tier == "quick" else 7200)
     from . import c05_native
 
     c05_native.run_native(run, tier)
+    finish_default_capacity_leg(run, big)
     if run.counters.get("kernels_evaluate", 0) < 1000:
         run.inconclusive_because("too few kernels ran")
     if run.counters.get("realloc_grow", 0) < 100:
